@@ -385,7 +385,32 @@ def r07j(F):
 		out.append(Result('07.j', False, 'floor:claim-height-rules', 'only %d claim-height rule instances (expected >= 8)' % len(out), len(out)))
 	return out
 
+def r07k(F):
+	"""a preimage learnt after the close produces a claim for EVERY matching HTLC of the confirmed counterparty commitment (several parts of one
+	payment share the hash): the claims are collected through an iterator chain that cannot stop early"""
+	out = []
+	fn = 'lightning::chain::channelmonitor::ChannelMonitorImpl::get_counterparty_output_claims_for_preimage'
+	fu = F.func(fn)
+	ex = Expr(fu)
+	n = 0
+	for bi, si, pl, rv in fu.defs.get(0, []):
+		if len(pl) != 1 or bi not in fu.reach([0]):
+			continue
+		e = ex.of_rvalue(rv)
+		names, base = iterator_chain(e)
+		if 'collect' not in names:
+			continue
+		n += 1
+		okc, names = chain_is_exhaustive(e)
+		walks = 'iter' in names or 'into_iter' in names
+		ok = okc and walks
+		out.append(Result('07.k', ok, ('ok:' if ok else 'partial:') + 'preimage-claims-all-matching-htlcs', 'get_counterparty_output_claims_for_preimage collects its claims through %s%s' % (' <- '.join(names), '' if ok else ' - the chain can stop at the first match: the other HTLC outputs with the same payment hash are never claimed'), len(names), where=F.where(fn, fu.line_of(bi))))
+	if n < 1:
+		out.append(Result('07.k', False, 'anchor:preimage-claims-collect', 'get_counterparty_output_claims_for_preimage no longer returns a collected iterator chain', where=F.where(fn)))
+	return out
+
 RULES = [
+	('07.k', 'late preimage: every matching HTLC of the confirmed counterparty commitment is claimed (exhaustive iterator chain)', r07k),
 	('07.j', 'claims are recorded at the confirmation height of the commitment transaction (pending funding spend, all claim builders)', r07j),
 	('07.a', 'claim transactions are broadcast only by the OnchainTxHandler claim routines, from generate_claim', r07a),
 	('07.b', 'feerate_bump never lowers the feerate; RBF increment; no sub-dust output; bump iff a previous feerate exists', r07b),
